@@ -381,7 +381,7 @@ class Prov:
             return alts[0]
         if not alts:
             return E('local', fn.local_name(l))
-        return E('phi', None, alts)
+        return E('phi', None, alts, c={'phi_local': l, 'phi_name': fn.local_name(l)})
 
     def rvalue(self, rv, b, i, depth, ty=None):
         k = rv['k']
